@@ -436,6 +436,13 @@ func c18(env *Env, rep *Report) {
 			port := freePort()
 			yaml, _ := c18Render(c18Settings(c, port, idp.Issuer), "file")
 			g := StartGateway(yaml, nil, port, c.TLS != "disable")
+			for retry := 0; retry < 3 && !g.Alive() && strings.Contains(g.Log(), "address already in use"); retry++ {
+				// somebody else holds the port: not a verdict about the configuration
+				g.Stop()
+				port = freePort()
+				yaml, _ = c18Render(c18Settings(c, port, idp.Issuer), "file")
+				g = StartGateway(yaml, nil, port, c.TLS != "disable")
+			}
 			rep.add("executions", 1)
 			want, why := refStartable(c)
 			what := fmt.Sprintf("auth=%v tls=%s selection=%s querykey=%v keytab=%v tokenauth=%v hosts=%d", c.Auth, c.TLS, c.Selection, c.QueryKey, c.Keytab, c.TokenAuth, c.Hosts)
